@@ -28,6 +28,20 @@ CHECKS = {
 
 NOT_APPLICABLE = []
 
+CHECKS['C20'] = (
+    'symbolic execution of the expiry query and checker pass over a symbolic '
+    'action row and symbolic clock / settings (sqlir on minidb), of the '
+    'integrity check over symbolic update times, and actor interleavings of '
+    'the checker against a genuine result on the real engine',
+    'An action is expired iff RUNNING, synchronous and silent beyond '
+    'max_missed*interval (first-heartbeat grace from the model default); '
+    'expired actions fail with the heartbeat error and normal error handling '
+    'follows, a broken one does not stop the batch, late results change '
+    'nothing; the integrity check re-triggers exactly the stuck tasks past '
+    'the delay; enabling conditions. Known finding F19 (expiry overwrites a '
+    'just-accepted result under overlapping transactions) is reported.',
+    '§3 C20')
+
 CHECKS['C05'] = (
     'bounded exploration of real engine runs of fan-out / fan-in data-flow '
     'shapes on minidb with completion order, task id order and outcomes as '
